@@ -143,6 +143,72 @@ pub fn script_caught(t: u32, k: usize, serial: Option<Arc<Mutex<()>>>) -> (Threa
     }
 }
 
+/// A treap as tall as it is large: a right path of `n` nodes built by struct literals (priorities are a
+/// public field, so this is a legal treap; nothing is drawn), then operations whose recursion runs down the
+/// whole spine.  Whatever the library shares between threads per level of recursion (depth counters,
+/// scratch stacks) is exercised `n` times per operation here.
+pub fn tall_script(t: u32, n: usize, serial: Option<Arc<Mutex<()>>>) -> (ThreadResult, Kept) {
+    macro_rules! op {
+        ($e:expr) => {{
+            let _g = serial.as_ref().map(|m| m.lock().unwrap_or_else(|e| e.into_inner()));
+            $e
+        }};
+    }
+    let base = t * 1000;
+    let mut root: Option<Box<TreapNode<It>>> = None;
+    for i in (0..n).rev() {
+        root = Some(Box::new(TreapNode { item: It { val: base + i as u32, size: n - i }, priority: 10 + i as u32, left: None, right: root }));
+    }
+    let tr = Treap { root };
+    thread::yield_now();
+    let (a, b) = op!(tr.split_at(n / 2));
+    thread::yield_now();
+    let mut tr = op!(Treap::merge(a, b));
+    thread::yield_now();
+    let removed = op!(tr.remove_at(n - 1)).val;
+    thread::yield_now();
+    // the new last element: its drawn priority may send it anywhere up the spine
+    op!(tr.insert_at(n - 1, It { val: base + 999, size: 1 }));
+    let prios = vec![find_prio(&tr.root, base + 999).expect("inserted node is in the tree")];
+    thread::yield_now();
+    let (a, b) = op!(tr.split_at(1));
+    let mut tr = op!(Treap::merge(a, b));
+    let size = tr.size();
+    let first = tr.first().map_or(u32::MAX, |x| x.val);
+    let last = tr.last().map_or(u32::MAX, |x| x.val);
+    let seq: Vec<u32> = op!(tr.collect()).iter().map(|x| x.val).collect();
+    (ThreadResult { prios, seq, size, removed, first, last, tie_shape: vec![], rendered: vec![], panicked: None }, Kept { trees: vec![] })
+}
+
+pub fn tall_caught(t: u32, n: usize, serial: Option<Arc<Mutex<()>>>) -> (ThreadResult, Kept) {
+    match std::panic::catch_unwind(std::panic::AssertUnwindSafe(|| tall_script(t, n, serial))) {
+        Ok(r) => r,
+        Err(p) => {
+            let msg = p.downcast_ref::<String>().cloned().or_else(|| p.downcast_ref::<&str>().map(|s| s.to_string())).unwrap_or_else(|| "panic".into());
+            (ThreadResult { prios: vec![], seq: vec![], size: 0, removed: 0, first: 0, last: 0, tie_shape: vec![], rendered: vec![], panicked: Some(msg) }, Kept { trees: vec![] })
+        }
+    }
+}
+
+/// Results of `tall_script` that do not depend on priorities.
+pub fn check_tall(o: &Outcome, n: usize) -> Result<(), String> {
+    if o.main == u32::MAX {
+        return Err("the helper thread's single node creation panicked".to_string());
+    }
+    for (i, t) in o.threads.iter().enumerate() {
+        let base = (i as u32 + 1) * 1000;
+        if let Some(m) = &t.panicked {
+            return Err(format!("thread {} panicked inside its operations on a path-shaped treap of {} nodes ({}); the same operations alone do not", i + 1, n, m));
+        }
+        let mut seq: Vec<u32> = (0..n as u32 - 1).map(|j| base + j).collect();
+        seq.push(base + 999);
+        if t.seq != seq || t.removed != base + n as u32 - 1 || t.size != n || t.first != base || t.last != base + 999 {
+            return Err(format!("thread {} on a path-shaped treap of {} nodes: removed {} size {} first {} last {} collect {:?}…; alone the same operations give removed {} size {} first {} last {}", i + 1, n, t.removed, t.size, t.first, t.last, &t.seq[..t.seq.len().min(6)], base + n as u32 - 1, n, base, base + 999));
+        }
+    }
+    Ok(())
+}
+
 /// The same script on a plain vector.
 pub fn expected(t: u32, k: usize) -> (Vec<u32>, u32) {
     let mut v: Vec<u32> = (0..(k - 1) as u32).map(|i| t * 100 + i).collect();
@@ -161,6 +227,11 @@ pub fn expected(t: u32, k: usize) -> (Vec<u32>, u32) {
 /// itself: under loom it is the model's root thread, whose thread-local destructors run only after loom has
 /// torn down its statics.
 pub fn run_once(threads: u32, k: usize, serial: bool, cold: bool) -> Outcome {
+    run_any(threads, k, serial, cold, 0)
+}
+
+/// `tall > 0`: every thread runs `tall_script` on a hand-built path of `tall` nodes instead of `script`.
+pub fn run_any(threads: u32, k: usize, serial: bool, cold: bool, tall: usize) -> Outcome {
     let lock = if serial { Some(Arc::new(Mutex::new(()))) } else { None };
     let main = if cold {
         0
@@ -170,7 +241,8 @@ pub fn run_once(threads: u32, k: usize, serial: bool, cold: bool) -> Outcome {
     let hs: Vec<_> = (1..=threads)
         .map(|t| {
             let l = lock.clone();
-            thread::spawn(move || script_caught(t, k, l))
+            // tall treaps recurse as deep as they are tall
+            thread::Builder::new().stack_size(4 << 20).spawn(move || if tall > 0 { tall_caught(t, tall, l) } else { script_caught(t, k, l) }).unwrap()
         })
         .collect();
     let mut results: Vec<(ThreadResult, Kept)> = hs.into_iter().map(|h| h.join().unwrap()).collect();
